@@ -23,7 +23,7 @@ import math
 import multiprocessing as mp
 import struct
 
-from harness import c01, common, optrun
+from harness import c01, common, gen_targets, optrun
 from harness.common import Check, coq_bool
 
 META = {
@@ -495,6 +495,7 @@ EXPECTED = {"MDelKey": "KeyError", "MUnknownParam": "KeyError", "MGroupDrop": "V
 
 def run(ck: Check) -> None:
     ck.coq_props()
+    gen_targets.run(ck)          # translator tie: Gallina regenerated from the source + coq/gen/EquivC09.v
     common.assert_repo_imports()
     thorough = ck.tier == "thorough"
     ncases = 420 if thorough else 105
@@ -612,6 +613,7 @@ def run(ck: Check) -> None:
                        "fault-free continuations: failure counters are not part of the saved state"]
     ck.notes.append("a checkpoint from which a whole parameter entry is removed loads without error (model and implementation agree): the property speaks "
                     "about entries missing from a SAVED parameter's state only")
+    ck.gen_equiv_verdict()
 
 
 def replay(obj) -> bool:
